@@ -88,6 +88,10 @@ C11(c, o) ==
             \cup (IF res.kind = "ok" /\ Has(o, "out")
                   THEN Chk(ObservedGroupTable(o) = ExpectedGroupTable(S) /\ Len(o.out.groups) = Cardinality(GroupStrs(S)),
                            "emitted groups " \o ToJson(ObservedGroupTable(o)) \o " differ from declared " \o ToJson(ExpectedGroupTable(S)))
+                       \cup (IF Has(o.out, "pipeline_layout") /\ Has(o.out.pipeline_layout, "bgl_nos")
+                             THEN Chk(o.out.pipeline_layout.bgl_nos = RUN!GroupOrder(S),
+                                      "the pipeline layout lists the layouts of groups " \o ToJson(o.out.pipeline_layout.bgl_nos) \o " instead of every group's own layout in index order")
+                             ELSE {})
                        \cup Chk(ObservedSupply(o) = ExpectedSupply(S) /\ SupplyCount(o) = Len(Resources(S)),
                                 "bind group entries built by from_bindings " \o ToJson(ObservedSupply(o)) \o " differ from the declared (group, binding, variable) triples " \o ToJson(ExpectedSupply(S)))
                   ELSE {}) ]
